@@ -106,6 +106,81 @@ def generate(tier, rng):
     return cases
 
 
+def process(tier, rng, cicada):
+    """the same trees as LINES OF A SCRIPT FILE run by the plain binary (the script interpreter re-renders every line from its tokens
+    before it is run): the printed value and `$?` of every line, compared with the model's `run_calculator` and the reference value"""
+    import os, subprocess
+    from .. import proc
+    r = rng.fork("c19-p")
+    nfiles = 12 if tier == "quick" else 150
+    per = 25
+    sb = proc.Sandbox("c19")
+    cases, files = [], []
+    for fi in range(nfiles):
+        ids = []
+        for k in range(per):
+            t = rand_tree(r, 1 + r.below(4))
+            if isinstance(t, int):
+                t = ("*", t, ("+", 3, 4))
+            if r.chance(1, 3):
+                # a signed literal opens the line, a parenthesised group follows behind a blank
+                t = (r.choice("*-+"), r.choice([-2, -1, -7]), ("+", t, 1)) if r.chance(1, 2) else t
+            text = render(t, r)
+            if r.chance(1, 4) and isinstance(t, tuple):
+                text = "%d %s (%s)" % (r.choice([-2, -1, 5]), r.choice("*-+"), text)
+                t = None
+            if t is None:
+                c = Case("calc", [hx(text)], {"gen": "ps", "ops": 2, "t": "script " + text, "text": text})
+            else:
+                c = Case("calc", [hx(text), "c19", prefix(t)], {"gen": "ps", "ops": nops(t), "t": "script " + prefix(t), "text": text})
+            c.id = "s%d_%d" % (fi, k)
+            cases.append(c)
+            ids.append(c)
+        files.append((fi, ids))
+
+    def one(job):
+        fi, cs = job
+        d = os.path.join(sb.dir, "f%d" % fi)
+        os.makedirs(d)
+        lines = []
+        for k, c in enumerate(cs):
+            lines.append(c.meta["text"])
+            lines.append('echo "S|%d|$?"' % k)
+        open(os.path.join(d, "s.sh"), "w").write("\n".join(lines) + "\n")
+        try:
+            p = subprocess.run([cicada, os.path.join(d, "s.sh")], cwd=d, env=sb.env(), stdin=subprocess.DEVNULL, stdout=subprocess.PIPE,
+                               stderr=subprocess.PIPE, timeout=60)
+        except subprocess.TimeoutExpired:
+            return [(c.id, "HANG") for c in cs]
+        out, res, cur = p.stdout.decode("utf-8", "replace").split("\n"), {}, []
+        for l in out:
+            if l.startswith("S|"):
+                _, k, st = l.split("|")
+                res[int(k)] = (st, cur)
+                cur = []
+            elif l:
+                cur.append(l)
+        ans = []
+        for k, c in enumerate(cs):
+            if k not in res:
+                ans.append((c.id, "CRASH (the script stopped before this line's marker; exit %s)" % p.returncode))
+                continue
+            st, printed = res[k]
+            if st == "0" and len(printed) == 1:
+                ans.append((c.id, "ok|" + hx(printed[0])))
+            elif st != "0" and not printed:
+                ans.append((c.id, "err"))
+            else:
+                ans.append((c.id, "status=%s printed=%r" % (st, printed)))
+        return ans
+
+    impl = {}
+    for part in proc.pmap(one, files):
+        impl.update(dict(part))
+    sb.cleanup()
+    return [("script", cases, impl)]
+
+
 def nontrivial(c, M, S, g, cls):
     if c.meta.get("ops", 0) >= 2:
         return c.meta["t"]
